@@ -53,7 +53,10 @@ def case_strategy(draw, thorough=False):
         big = False
     # (a many-thousand-vertex polygon is only combined with the larger limits: fracturing it into 5-vertex pieces under
     # the sanitizers takes longer than the quick-tier watchdog and is C12's subject)
-    mp = draw(st.sampled_from([0, 199, 8190])) if big else draw(st.sampled_from([0, 0, 5, 6, 8, 199, 8190]))
+    if big:
+        mp = 0 if nv > 9000 else draw(st.sampled_from([0, 8190]))
+    else:
+        mp = draw(st.sampled_from([0, 0, 5, 6, 8, 199, 8190]))
     cycles = draw(st.sampled_from([1, 2, 3]))
     return {"lib": lib, "max_points": mp, "cycles": cycles}
 
